@@ -3,7 +3,8 @@ from vf import Check, Stream, sh, VERIF, BUILD, log
 
 WRAPS = ['pthread_mutex_lock', 'pthread_mutex_trylock', 'pthread_mutex_unlock', 'pthread_cond_wait',
          'pthread_cond_timedwait', 'pthread_cond_signal', 'pthread_cond_broadcast', 'sem_wait', 'sem_trywait',
-         'sem_timedwait', 'sem_post', 'pthread_create', 'pthread_join']
+         'sem_timedwait', 'sem_post', 'pthread_create', 'pthread_join',
+         'pthread_mutex_init', 'pthread_mutex_destroy', 'pthread_cond_init', 'pthread_cond_destroy', 'sem_init', 'sem_destroy']
 
 BASES = [None, 1700000000999000000, 1700000000000000000, 1799999999999999999, 1700000000500000001, 999999999]
 MS = [0, 1, 2, 10, 250, 999, 1000, 1001, 1999, 60000]
@@ -129,7 +130,7 @@ class C11(Check):
     per_case_timeout = 10
     technique = ('machine-checked proof (Coq 8.16) about an executable model of the pthread primitives and of libnstd\'s wrappers '
                  '+ deterministic-scheduler correspondence (real library code on virtual primitives, same move list as the model)')
-    level_text = ('Theorems in Coq (19, closed under the global context) about every state reachable by ANY list of scheduler moves '
+    level_text = ('Theorems in Coq (20, closed under the global context) about every state reachable by ANY list of scheduler moves '
                   '(run a thread\'s pending primitive call, spurious wake-up, timeout, timeout-steal = a woken timed waiter past its '
                   'deadline reports ETIMEDOUT although the signal was directed at it (POSIX-permitted), clock advance, rotation of a '
                   'condition queue) from any scripts of library calls, any number of threads, any initial signal state and semaphore '
@@ -137,7 +138,8 @@ class C11(Check):
                   'reset, a blocked waiter with the flag up implies an enabled pending unlock/broadcast of set(), the broadcast leaves '
                   'nobody blocked; Monitor successful waits + flag <= sets, a set() that found a blocked waiter leaves an enabled '
                   'signaller or a woken waiter that - whatever the return code of its condition wait, 0 or ETIMEDOUT - consumes the flag '
-                  'and returns true; timed waits return false only at/after start+timeout (deadline arithmetic exact and normalised). '
+                  'and returns true (the same clause is proved FALSE, monitor_set_releases_a_waiter_refuted_before_repair, of the '
+                  'wait(timeout) that returned false before looking at the flag: fixes/C11/01); timed waits return false only at/after start+timeout (deadline arithmetic exact and normalised). '
                   'Theorems that are PROPERTIES OF THE MODELLED PRIMITIVE as the wrapper uses it (Mutex, Semaphore and Thread add no '
                   'logic beyond the recursive attribute, the EINTR retry loop and the stored handle): Mutex history exclusive and '
                   're-entrant, tryLock never blocked (trylock_never_blocks restates the rule of Sched.v) and successful iff free or own; '
@@ -151,7 +153,13 @@ class C11(Check):
     level_note = ('PARTIAL in this sense: the OS primitives are MODELLED. coq/Sync/Sched.v (pthread mutex plain/recursive - EPERM for a '
                   'non-owner unlock only on the recursive type, a default-type mutex is freed whoever held it, as glibc does -, condition '
                   'variable with spurious wake-ups, timeouts and timeout-steals as scheduler moves, POSIX semaphore with EINTR, '
-                  'create/join, scripted clock) and its hand transcription harness/sync_sched.cpp are trusted; the real glibc primitives '
+                  'create/join, scripted clock) and its hand transcription harness/sync_sched.cpp are trusted. Clock domain and '
+                  'initialisation are checked on the implementation side only (Sched.v has one clock): the interposed clock_gettime '
+                  'serves two scripted clocks (CLOCK_REALTIME = now, any other id = now/3), a virtual condition variable measures '
+                  'deadlines against the clock its attribute selected at the wrapped pthread_cond_init (sem_timedwait: CLOCK_REALTIME), '
+                  'so a deadline computed from the wrong clock times out at the wrong moment and fails timed_ok / the deadline probe; '
+                  'pthread_mutex_init / pthread_cond_init / sem_init are wrapped and a library object whose primitive was never '
+                  'initialised is reported as a failing input; the real glibc primitives '
                   'and the real kernel scheduler are never exercised by this check (no real-thread soak was built). The rows marked [P] '
                   'in Properties_C11.v (Mutex, Semaphore, tryLock, Thread) are properties of that modelled primitive reached through the '
                   'wrapper, not of wrapper logic. Granularity: one move = one primitive call plus the thread-local code up to the next '
@@ -179,6 +187,7 @@ class C11(Check):
     assumptions = ['initial semaphore value >= 0 (uint in the code)',
                    'OS primitives behave as coq/Sync/Sched.v says (POSIX semantics incl. spurious wake-ups, ETIMEDOUT only at/after the absolute deadline but possibly after a signal was consumed, EINVAL for tv_nsec outside [0,1e9), glibc order in sem_timedwait, glibc owner check on unlock only for recursive mutexes); harness/sync_sched.cpp transcribes it',
                    'sequential consistency at the granularity of primitive calls (flags only accessed under the internal mutex)',
+                   'the clock read by a timed wait is the clock its primitive measures the deadline against (checked on the implementation by the two scripted clocks of the virtual scheduler, not part of the Coq model)',
                    'time_t/long arithmetic of the deadline does not overflow: 0 <= ns + (t rem 1000)*10^6 < 2*10^9 is proved; tv_sec + t/1000 is assumed to fit 64 bits']
 
     # ---- generators ----------------------------------------------------------------------------------
@@ -384,6 +393,8 @@ class C11(Check):
         prev_blocked = set()
         last = None
         for l in obs:
+            if l.startswith('! uninit'):
+                return 'a primitive of a library object is used without having been initialised: ' + l
             if l.startswith('!'):
                 return 'implementation crashed under the schedule: ' + l
             sec = l.split(' | ')
